@@ -42,6 +42,7 @@ type Opts struct {
 	Mains        int  // number of main packages (1..4); 0 = random
 	RootMain     bool // one of the mains lives in the module root
 	Libs         int  // number of library packages; 0 = random 2..5
+	IgnoreMidLib bool // (scenario level) one configuration in six ignores a library that lies on an import path
 	GoVersions   bool // draw the go directive of go.mod from 1.20 … 1.23 (language version of the build)
 	InScope      bool // avoid the recorded defect classes
 	Decoys       bool // add test files, testdata, vendor, nested module, non-Go files, look-alike dirs
